@@ -32,7 +32,8 @@ META = {
         " Round 7: the marker walk starts at the first marker; every accumulator of rebuild_sec_within reaches the stored description under a guard that looks at it; cleanup_desc word tests; pm_regex does not fire inside any word of an ordinary-words corpus (found and fixed: 'shipment', 'primary')."
         " Round 8: the unused list is not emptied before a return; the chunker's text is flagged from PLSSParser's own list; section patterns starting inside a word ('bisect 14') are a known finding."
         ' Round 9: every chunk is handed to a ChunkParser; an empty section list (filtered unpacker result) is reported as a vanishing block.'
-        ' Round 10: with `segment`, a text in which the Twp/Rge finder keeps nothing still comes out of segment() as a block (followed for every layout with an empty match list); unused text handed to a flag-making helper is followed.'),
+        ' Round 10: with `segment`, a text in which the Twp/Rge finder keeps nothing still comes out of segment() as a block (followed for every layout with an empty match list); unused text handed to a flag-making helper is followed.'
+        " Round 11: 'rewrites whitespace only' is decided on the parse tree of each substitution pattern; the clean-up function is found by what it does after a rename; named guard conditions are expanded before a finding is keyed."),
     'families': ['SINK', 'ORDER', 'TBL', 'STRIPSET'],
 }
 
@@ -124,7 +125,7 @@ def _marker_blocks(ctx):
               key="SINK|_parse_meaningful|allpaths", where=common.loc(fi, b))
     pnt = ctx.repo.func('ChunkParser._parse_meaningful.prep_new_tract')
     t = [norm(s) for s in pnt.node.body]
-    ctx.shape('desc = cleanup_desc(desc)' in t and 'self._stage_new_tract(desc, self.working_sec, self.working_twprge)' in t,
+    ctx.shape(f'desc = {common.cleanup_name(ctx)}(desc)' in t and 'self._stage_new_tract(desc, self.working_sec, self.working_twprge)' in t,
               'SINK', 'prep_new_tract stages the (cleaned) block as the description')
 
 
@@ -225,6 +226,8 @@ def _unused_flow(ctx):
     ctx.attempt(every_match_registers, rule='SINK')
     ctx.attempt(_every_chunk_is_parsed)
     ctx.attempt(_segment_without_twprge)
+    ctx.attempt(cleanup_keeps_final_stop)
+    ctx.attempt(continuation_word_tests_are_whole_words, rule='SINK')
     ctx.attempt(_parser_level_unused_is_flagged)
     safe = ctx.repo.func('ChunkParser.parse_safe')
     t = [norm(s) for s in walk_local(safe.node) if isinstance(s, ast.stmt)]
@@ -254,6 +257,13 @@ def _unused_flow(ctx):
     if not gs:
         ctx.ok('SINK', 'examine_unused flags every unused block')
     for tst, pol in gs:
+        if isinstance(tst, ast.Name):
+            # a condition that was given a name first (`reportable = len(bit) >= MIN; if reportable:`):
+            # judge (and key) the named expression
+            defs_ = [a for a in walk_local(eu.node) if isinstance(a, ast.Assign) and len(a.targets) == 1
+                     and isinstance(a.targets[0], ast.Name) and a.targets[0].id == tst.id]
+            if len(defs_) == 1 and isinstance(defs_[0].value, (ast.Compare, ast.BoolOp)):
+                tst = defs_[0].value
         txt = norm(tst)
         val = None
         if isinstance(tst, ast.Compare) and 'len(' in txt:
@@ -401,8 +411,12 @@ def whitespace_only(ctx):
                                  f"longer the text as written", key="SINK|reduce_whitespace|replace", where=common.loc(rw, c))
     pats = [(a_, b_) for a_, b_, _c in common.sub_pairs(ctx, rw)]
     n_calls = len([c for c in walk_local(rw.node) if isinstance(c, ast.Call) and dotted(c.func) == 're.sub'])
-    ok = bool(pats) and all(isinstance(p, str) and isinstance(r, str) and
-                            set(p) <= set(' +\\tnr{}2,^[]') and r in (' ', '\n', '\n\n', '') for p, r in pats)
+    def ws_only(p):
+        try:
+            return rx.consumes_only(p, 0, str.isspace)
+        except Exception:
+            return False
+    ok = bool(pats) and all(isinstance(p, str) and isinstance(r, str) and ws_only(p) and (r == '' or r.isspace()) for p, r in pats)
     if not pats:
         ctx.undecided('SINK', 'reduce_whitespace only rewrites whitespace', 'substitution patterns do not fold / not recognised')
     else:
@@ -512,7 +526,7 @@ def _thresholds_and_tests(ctx):
                 key="SIB|min-length|strict", where=common.loc(strict[0][0], strict[0][1]) if strict else None)
     else:
         ctx.undecided('SIB', 'unused text of exactly the minimum length counts as long enough everywhere', 'fewer than two length tests recognised')
-    cd = ctx.repo.func('plss_parse:cleanup_desc')
+    cd = common.cleanup_func(ctx)
     n = 0
     for node in walk_local(cd.node):
         if not isinstance(node, ast.If):
@@ -607,7 +621,7 @@ def cleanup_words(ctx, rule='SINK'):
       * a word removed from the FRONT of a block ('and ', 'the ') is text of
         the description - and of every unused fragment that sec_within glues
         back - that disappears without a flag."""
-    cd = ctx.repo.func('plss_parse:cleanup_desc')
+    cd = common.cleanup_func(ctx)
     tables = {}
     for x in walk_local(cd.node):
         if isinstance(x, ast.Assign) and isinstance(x.targets[0], ast.Name):
@@ -648,7 +662,7 @@ def cleanup_words(ctx, rule='SINK'):
 
 def _cleanup(ctx):
     n = word_tables(ctx)
-    cd = ctx.repo.func('plss_parse:cleanup_desc')
+    cd = common.cleanup_func(ctx)
     ctx.attempt(stripset, [cd])
     ctx.attempt(cleanup_words)
     # the words cleanup_desc may cut from the end of a block without a flag:
@@ -713,10 +727,11 @@ def _segment_without_twprge(ctx):
         if verdict.startswith('calls '):
             # handed to a _segment_* method with an empty match list: its loop over the matches does not run;
             # anything that keeps the text must stand outside that loop
-            callee = ctx.repo.find_method(seg.cls, verdict[len('calls self.'):-2]) if seg.cls is not None else None
+            import re as _re
+            mname = _re.match(r'calls self\.(\w+)\(\)', verdict)
+            callee = ctx.repo.find_method(seg.cls, mname.group(1)) if seg.cls is not None and mname else None
             keeps = callee is not None and any(
-                isinstance(c, ast.Call) and norm(c.func) in ('self.blocks.append', 'self.unused_blocks.append',
-                                                             'self.blocks.extend', 'self.unused_blocks.extend')
+                isinstance(c, ast.Call) and norm(c.func).startswith('self.') and norm(c.func).endswith(('.append', '.extend'))
                 and not any(isinstance(p_, (ast.For, ast.While)) for p_ in _ancestors(c, callee.node))
                 for c in ast.walk(callee.node))
             if callee is None or keeps:
@@ -742,3 +757,65 @@ def _ancestors(node, stop):
     while p is not None and p is not stop:
         yield p
         p = parent(p)
+
+
+def cleanup_keeps_final_stop(ctx, rule='SINK'):
+    """cleanup_desc strips separators from both ends of a block but a full
+    stop only from its FRONT: a block may end in an abbreviation ('the East
+    20 ac.', 'north of the R.R.'), whose last character belongs to the text."""
+    cd = common.cleanup_func(ctx)
+    n = 0
+    for c in walk_local(cd.node):
+        if isinstance(c, ast.Call) and isinstance(c.func, ast.Attribute) and c.func.attr in ('strip', 'rstrip') and c.args:
+            chars = ctx.fold.eval(c.args[0], ctx.fold.func_env(cd), cd.module.name)
+            if not isinstance(chars, str):
+                continue
+            n += 1
+            ctx.check('.' not in chars, rule, f"cleanup_desc: `{norm(c)[:40]}` leaves a final full stop alone",
+                      detail_bad=f"`{norm(c)[:50]}` also removes full stops from the END of a block: 'less the East 20 ac.' comes out "
+                                 f"as '... 20 ac' - the description is no longer the block as written",
+                      key=f"{rule}|cleanup_desc|strips-final-stop", where=common.loc(cd, c))
+    return n
+
+
+def continuation_word_tests_are_whole_words(ctx, rule='TBL'):
+    """SecFinder decides from the word in front of a section ('... of Section
+    4') whether the section continues the previous block.  A regex used for
+    that test must see whole words only: 'thereof', 'basin', 'aforesaid',
+    'Main' end in the letters of 'of' / 'in' / 'said' without being them."""
+    from ..fold import RegexVal
+    sf = ctx.repo.func('SecFinder.findall_matching_sec')
+    scopes = [m for m in sf.cls.methods.values()] if sf.cls is not None else [sf]
+    n = 0
+    for fi in scopes:
+        for c in walk_local(fi.node):
+            if not (isinstance(c, ast.Call) and isinstance(c.func, ast.Attribute) and c.func.attr in ('search', 'match', 'fullmatch')):
+                continue
+            recv = c.func.value
+            if isinstance(recv, ast.Name) and recv.id == 're':
+                if not c.args:
+                    continue
+                recv = c.args[0]
+            try:
+                rv = common.fold_in_func(ctx, fi, recv)
+            except AnalysisError:
+                continue
+            if isinstance(rv, str):
+                rv = RegexVal(rv, 0)
+            if not isinstance(rv, RegexVal) or not (rv.pattern.rstrip().endswith(('$', r'\Z')) or r'\s*$' in rv.pattern):
+                continue
+            try:
+                L = rx.Lang(rv.pattern, rv.flags)
+                yes = [w for w in ('NE/4 of', 'lying in', 'part of said') if any(e == len(w) for s_, e in L.search_spans(w))]
+                inside = [w for w in ('thereof', 'basin', 'aforesaid', 'Main', 'herein', 'cabin')
+                          if any(e == len(w) and s_ > 0 and w[s_ - 1].isalpha() for s_, e in L.search_spans(w))]
+            except Exception:
+                continue
+            if not yes:
+                continue            # not a continuation-word test
+            n += 1
+            ctx.check(not inside, rule, f"{fi.qualname}: the continuation-word test `{rv.pattern[:40]}` sees whole words only",
+                      detail_bad=f"`{rv.pattern[:60]}` also matches at the end of {inside}: a block that ends in such a word makes the "
+                                 f"next 'Sec NN:' look like a continuation - the section is swallowed into the previous tract, without a flag",
+                      key=f"{rule}|{fi.qualname}|continuation-word-inside|{','.join(inside)}", where=common.loc(fi, c))
+    return n
